@@ -15,6 +15,7 @@
 package s2
 
 import (
+	"fmt"
 	"io"
 	"math"
 
@@ -508,6 +509,13 @@ func (c *Cell) Decode(r io.Reader) error {
 
 func (c *Cell) decode(d *decoder) {
 	c.id.decode(d)
+	if d.err != nil {
+		return
+	}
+	if !c.id.IsValid() {
+		d.err = fmt.Errorf("invalid cell id %#x", uint64(c.id))
+		return
+	}
 	*c = CellFromCellID(c.id)
 }
 
